@@ -145,8 +145,10 @@ impl Property for C09 {
             // date_trunc cuts to a boundary of the local clock in every zone (also where the offset changes by half an hour)
             case.kind = "trunc-invariant".into();
             case.format = "json".into();
-            case.defs = "CREATE TABLE t(line = '^ts=([^;]*);', line[1] => ts TIMESTAMP);".into();
-            case.query = "SELECT EXTRACT(MINUTE FROM date_trunc('hour', ts)) AS m, EXTRACT(SECOND FROM date_trunc('minute', ts)) AS s, EXTRACT(SECOND FROM date_trunc('hour', ts)) AS hs FROM t".into();
+            case.defs = "CREATE TABLE t(line = '^ts=(([0-9]+)-([0-9]+)-([0-9]+) ([0-9]+):([0-9]+):([0-9]+));', line[1] => ts TIMESTAMP, line[2], line[3], line[4], line[5], line[6], line[7] => gts TIMESTAMP, line[1] => raw TEXT);".into();
+            case.query = "SELECT EXTRACT(MINUTE FROM date_trunc('hour', ts)) AS m, EXTRACT(SECOND FROM date_trunc('minute', ts)) AS s, EXTRACT(SECOND FROM date_trunc('hour', ts)) AS hs, \
+                          (ts IS NULL) AS tn, (gts IS NULL) AS gn, (gts = ts) AS same, (gts = raw) AS same_text FROM t"
+                .into();
             let n = 1 + t.draw(6);
             let lines: Vec<String> = (0..n)
                 .map(|_| {
@@ -339,6 +341,18 @@ impl Property for C09 {
             obs.label("trunc-invariant");
             for rec in out.records() {
                 if let Ok(j) = crate::value::parse_json(&rec) {
+                    // the same wall-clock text read through one group and assembled from six groups is one instant (also
+                    // where the local time occurs twice)
+                    if j.get("tn") == Some(&crate::value::J::Bool(false)) && j.get("gn") == Some(&crate::value::J::Bool(false)) {
+                        for key in ["same", "same_text"] {
+                            if j.get(key) == Some(&crate::value::J::Bool(false)) {
+                                return Err(Failure::new(
+                                    "timestamp: the same local time is two different instants",
+                                    format!("{} is false: a TIMESTAMP read from one group / a text and the TIMESTAMP assembled from the same digits differ\n  record {}\n  {}", key, rec, context()),
+                                ));
+                            }
+                        }
+                    }
                     for key in ["m", "s", "hs"] {
                         match j.get(key) {
                             Some(crate::value::J::Num(n)) if n.parse::<f64>().map(|x| x != 0.0).unwrap_or(true) => {
